@@ -32,6 +32,14 @@ let lift_table (s : string) =
   fun x b -> match Hashtbl.find_opt t (hz x ^ ":" ^ (if b then "1" else "0")) with
     | Some v -> v | None -> raise Miss
 
+(* x:k|none,... -> lift_even *)
+let lift_even_table (s : string) =
+  let t = Hashtbl.create 8 in
+  List.iter (fun e -> match String.split_on_char ':' e with
+    | [x; k] -> Hashtbl.replace t (hz (zh x)) (if k = "none" then None else Some (zh k))
+    | _ -> failwith "bad lift_even table") (fields ',' s);
+  fun x -> match Hashtbl.find_opt t (hz x) with Some v -> v | None -> raise Miss
+
 let yodd_table (s : string) =
   let t = Hashtbl.create 8 in
   List.iter (fun e -> match String.split_on_char ':' e with
@@ -128,6 +136,10 @@ let () =
          | ["BV"; _; n; rk; s; pktf; pk; m; ch; yo] ->
            verdict (bip_verify (zh n) (yodd_table yo) (chal_table ch)
                       { s_R = { g_tf = true; g_k = zh rk }; s_s = zh s } { g_tf = (pktf = "1"); g_k = zh pk } m)
+         | ["BW"; _; n; p; px; rx; s; m; ch; yo; le] ->
+           verdict (bip_verify_wire (zh n) (yodd_table yo) (chal_table ch) (zh p) (lift_even_table le) (zh px) (zh rx) (zh s) m)
+         | ["MW"; _; n; p; rx; s; pk; m; ch; le] ->
+           verdict (mina_verify_wire (zh n) (chal_table ch) (zh p) (lift_even_table le) (zh rx) (zh s) { g_tf = true; g_k = zh pk } m)
          | ["LS"; _; q; sc; x; m; pe] ->
            let q = zh q in
            (match bls_sign q (pkenc_table pe) (parse_scheme sc) (zh x) (bytes_of_hex m) with
